@@ -196,6 +196,10 @@ thread_local! {
     static VISIT_DEPTH: Cell<u32> = Cell::new(0);
 }
 
+pub fn mode() -> Mode {
+    MODE.with(|m| m.get())
+}
+
 pub fn reset_flags() {
     EMPTY_OPTIONAL.with(|c| c.set(false));
     UNSORTED_MAP.with(|c| c.set(false));
@@ -318,7 +322,8 @@ fn reward_i(i: usize) -> RewardAddress {
 }
 
 pub fn g_address(ctx: &mut Ctx) -> Address {
-    let a = match ctx.choose(7) {
+    let kinds = if mode() == Mode::C17 { 5 } else { 7 };
+    let a = match ctx.choose(kinds) {
         0 => EnterpriseAddress::new(1, &g_credential(ctx)).to_address(),
         1 => BaseAddress::new(*ctx.pick(&[1u8, 0, 15]), &g_credential(ctx), &g_credential(ctx)).to_address(),
         2 => PointerAddress::new(1, &g_credential(ctx), &Pointer::new_pointer(&g_coin(ctx), &g_coin(ctx), &g_coin(ctx))).to_address(),
@@ -498,7 +503,10 @@ pub fn g_native_scripts(ctx: &mut Ctx, depth: u32) -> NativeScripts {
 pub fn g_plutus_script(ctx: &mut Ctx) -> PlutusScript {
     let len = *ctx.pick(&[3usize, 0, 23, 24, 64, 65, 300]);
     let body: Vec<u8> = (0..len).map(|i| (i * 7) as u8).collect();
-    let s = match ctx.choose(3) {
+    // the JSON form of a Plutus script does not carry its language (known finding, exercised by
+    // c17::sc_json_gaps): typed JSON sweeps use V1 only
+    let langs = if mode() == Mode::C17 { 1 } else { 3 };
+    let s = match ctx.choose(langs) {
         0 => PlutusScript::new(body),
         1 => PlutusScript::new_v2(body),
         _ => PlutusScript::new_v3(body),
@@ -513,7 +521,7 @@ pub fn g_plutus_scripts(ctx: &mut Ctx) -> PlutusScripts {
             let s = g_plutus_script(ctx);
             list.push(s);
         } else {
-            list.push(PlutusScript::new_with_version(vec![i as u8; 2 + i], &[Language::new_plutus_v1(), Language::new_plutus_v2(), Language::new_plutus_v3()][i % 3]));
+            list.push(PlutusScript::new_with_version(vec![i as u8; 2 + i], &[Language::new_plutus_v1(), Language::new_plutus_v2(), Language::new_plutus_v3()][if mode() == Mode::C17 { 0 } else { i % 3 }]));
         }
     }
     // the wire format groups scripts by language (witness-set keys 3, 6, 7): fill the list in that
@@ -633,15 +641,22 @@ pub fn g_metadatum(ctx: &mut Ctx, depth: u32) -> TransactionMetadatum {
 }
 pub fn g_general_metadata(ctx: &mut Ctx) -> GeneralTransactionMetadata {
     let n = g_n(ctx);
-    let mut g = GeneralTransactionMetadata::new();
+    let mut pairs: Vec<(BigNum, TransactionMetadatum)> = Vec::new();
     for i in 0..n {
         if i == 0 {
             let label = g_coin(ctx);
             let m = g_metadatum(ctx, 2);
-            g.insert(&label, &m);
+            pairs.push((label, m));
         } else {
-            g.insert(&bn(u64::MAX - 30 + i as u64), &TransactionMetadatum::new_int(&Int::new_i32(i as i32)));
+            pairs.push((bn(u64::MAX - 30 + i as u64), TransactionMetadatum::new_int(&Int::new_i32(i as i32))));
         }
+    }
+    // insertion-ordered map: fill in ascending key order (JSON does not record insertion order)
+    pairs.sort_by(|a, b| a.0.cmp(&b.0));
+    pairs.dedup_by(|a, b| a.0 == b.0);
+    let mut g = GeneralTransactionMetadata::new();
+    for (k, m) in &pairs {
+        g.insert(k, m);
     }
     v(ctx, g)
 }
@@ -1118,15 +1133,20 @@ pub fn g_certificate_kind(ctx: &mut Ctx, k: usize) -> Certificate {
             let pot = if ctx.flag() { MIRPot::Treasury } else { MIRPot::Reserves };
             let mir = if ctx.flag() {
                 let n = g_n(ctx);
-                let mut m = MIRToStakeCredentials::new();
+                let mut pairs: Vec<(Credential, Int)> = Vec::new();
                 for i in 0..n {
                     if i == 0 {
                         let c = g_credential(ctx);
                         let d = g_int(ctx);
-                        m.insert(&c, &d);
+                        pairs.push((c, d));
                     } else {
-                        m.insert(&cred_i(90 + i), &Int::new_i32(-(i as i32)));
+                        pairs.push((cred_i(90 + i), Int::new_i32(-(i as i32))));
                     }
+                }
+                pairs.sort_by(|a, b| a.0.cmp(&b.0));
+                let mut m = MIRToStakeCredentials::new();
+                for (c, d) in &pairs {
+                    m.insert(c, d);
                 }
                 let m = v(ctx, m);
                 MoveInstantaneousReward::new_to_stake_creds(pot, &m)
@@ -1220,15 +1240,20 @@ pub fn g_certificates(ctx: &mut Ctx) -> Certificates {
 }
 pub fn g_withdrawals(ctx: &mut Ctx) -> Withdrawals {
     let n = g_n1(ctx);
-    let mut w = Withdrawals::new();
+    let mut pairs: Vec<(RewardAddress, BigNum)> = Vec::new();
     for i in 0..n {
         if i == 0 {
             let ra = g_reward_address(ctx);
             let c = g_coin(ctx);
-            w.insert(&ra, &c);
+            pairs.push((ra, c));
         } else {
-            w.insert(&reward_i(120 + i), &bn(i as u64));
+            pairs.push((reward_i(120 + i), bn(i as u64)));
         }
+    }
+    pairs.sort_by(|a, b| a.0.cmp(&b.0));
+    let mut w = Withdrawals::new();
+    for (k, c) in &pairs {
+        w.insert(k, c);
     }
     v(ctx, w)
 }
@@ -1236,6 +1261,7 @@ pub fn g_update(ctx: &mut Ctx) -> Update {
     mark_legacy();
     let mut pp = ProposedProtocolParameterUpdates::new();
     let n = g_n1(ctx);
+    let mut pairs: Vec<(GenesisHash, ProtocolParamUpdate)> = Vec::new();
     for i in 0..n {
         let mut ppu = ProtocolParamUpdate::new();
         if i == 0 {
@@ -1244,7 +1270,11 @@ pub fn g_update(ctx: &mut Ctx) -> Update {
         } else {
             ppu.set_n_opt(i as u32);
         }
-        pp.insert(&GenesisHash::from_bytes(h28(130 + i)).unwrap(), &ppu);
+        pairs.push((GenesisHash::from_bytes(h28(130 + i)).unwrap(), ppu));
+    }
+    pairs.sort_by(|a, b| a.0.cmp(&b.0));
+    for (k, u) in &pairs {
+        pp.insert(k, u);
     }
     let pp = v(ctx, pp);
     let e = g_u32(ctx);
